@@ -496,10 +496,83 @@ Definition well_formed {S Rc : Type} (meta : tx -> txmeta) (exec : S -> tx -> ex
   (0 <= c_maxblobs cfg /\ c_maxblobs cfg * 131072 < 18446744073709551616)%Z /\
   (0 <= c_gaslimit cfg < 9223372036854775808)%Z.
 
+(* Shift exactly after a success or a nonce-too-low, Pop otherwise *)
+Definition op_of (err : option apply_err) : op :=
+  match err with None | Some ENonceTooLow => OShift | Some _ => OPop end.
+
+(* The history of a run of the loop: the environment BEFORE each attempt.  One attempt
+   either leaves the environment alone (the head was dropped by a pre-check) or is one call
+   of commit_transaction; [chain e h e'] threads the environments through the attempts. *)
+Section History.
+  Variables S Rc : Type.
+  Variable meta : tx -> txmeta.
+  Variable pre_check : S -> tx -> pre_res.
+  Variable exec : S -> tx -> exec_res S Rc.
+  Variable cfg : bconfig.
+
+  Definition step_env (e : benv S Rc) (a : attempt) (e1 : benv S Rc) : Prop :=
+    (e1 = e /\ at_op a = OPop /\
+     (at_why a = WGas \/ at_why a = WBlobSpace \/ at_why a = WEvicted \/ at_why a = WReplay)) \/
+    (exists err reached,
+        commit_transaction S Rc meta pre_check exec cfg e (it_tx (at_item a)) = Ok (e1, err, reached) /\
+        at_op a = op_of err /\
+        at_why a = (if reached then WApplied err else WBlobCap)).
+
+  Fixpoint chain (e : benv S Rc) (h : list (benv S Rc * attempt)) (e' : benv S Rc) : Prop :=
+    match h with
+    | [] => e' = e
+    | (e0, a) :: r => e0 = e /\ exists e1, step_env e0 a e1 /\ chain e1 r e'
+    end.
+End History.
+
 (* the transactions of a trace that were included (applyTransaction succeeded) *)
 Definition included (tr : list attempt) : list tx :=
   map (fun a => it_tx (at_item a))
       (filter (fun a => match at_why a with WApplied None => true | _ => false end) tr).
+
+Definition is_included (a : attempt) : bool :=
+  match at_why a with WApplied None => true | _ => false end.
+
+(* What "builder trace = importer trace" says of one history entry (e, a), e the builder's
+   environment before attempt a: the importer's transaction loop (StateProcessor.Process) over
+   the transactions included SO FAR, started from a fresh pool and the state after the
+   pre-execution system calls, has reached exactly the builder's gas pool, state and receipts;
+   the builder's blob-gas counter is that of those transactions and its header gas used is the
+   pool's Used(); and if the attempt is included, the ONE evaluation of the per-transaction
+   function that the builder performs here is the evaluation the importer performs at this
+   position, with the same pool / state / receipt as result. *)
+Section Entry.
+  Variables S Rc : Type.
+  Variable meta : tx -> txmeta.
+  Variable pre_check : S -> tx -> pre_res.
+  Variable exec : S -> tx -> exec_res S Rc.
+  Variable cfg : bconfig.
+  Variable pre_exec : S -> S.
+  Variable parent : S.
+
+  Definition entry_ok (ea : benv S Rc * attempt) : Prop :=
+    let e := fst ea in let a := snd ea in
+    let gp0 := NewGasPool (c_gaslimit cfg) in let s0 := pre_exec parent in
+    process_txs S Rc meta pre_check exec cfg gp0 s0 [] (e_txs S Rc e)
+      = Some (e_pool S Rc e, e_state S Rc e, e_receipts S Rc e) /\
+    e_blobgasused S Rc e = sum_blobgas meta (e_txs S Rc e) /\
+    Z.of_N (e_blobgasused S Rc e) = (131072 * e_blobs S Rc e)%Z /\
+    (exists g, GasPool_Used (e_pool S Rc e) = Some (g, e_gasused S Rc e)) /\
+    (is_included a = true ->
+     exists gp' s' rc,
+       apply_message S Rc meta pre_check exec cfg (e_pool S Rc e) (e_state S Rc e) (it_tx (at_item a))
+         = (gp', inl (s', rc)) /\
+       process_txs S Rc meta pre_check exec cfg gp0 s0 [] (e_txs S Rc e ++ [it_tx (at_item a)])
+         = Some (gp', s', e_receipts S Rc e ++ [rc])).
+End Entry.
+
+(* the attempts made on iterator [isb] (false = plain, true = blob) on sender [from]'s
+   transactions, and those of them that were included *)
+Definition attempts_of (isb : bool) (from : N) (tr : list attempt) : list attempt :=
+  filter (fun a => Bool.eqb (at_blob a) isb && (it_from (at_item a) =? from)%N) tr.
+
+Definition included_of (isb : bool) (from : N) (tr : list attempt) : list tx :=
+  map (fun a => it_tx (at_item a)) (filter is_included (attempts_of isb from tr)).
 
 (* the attempts made on one of the two iterators, as a C43 trace *)
 Definition trace_of (isb : bool) (tr : list attempt) : list (item * op) :=
